@@ -12,12 +12,10 @@ Because the code operations are functions of the view and the view does not dete
 `processCommand` runs with the parameters AT the current real code (`paramsAt`), and the real code advances by
 `uiNextDeps` (a `move` command of the disassembler mode performs `code.Move` / `code.Index(b).Move`).
 
-* `real_step_safe`, `real_session_never_panics`   C22 for the instantiated UI with the SCOPED emulator
-      (`honest = false`: an emulator step that leaves the domain of C14 is reported as the error of `Step`);
-* `TreeOOD`, `SessionOOD`   "for the values typed in, the replay of an emulator step leaves the domain of C14";
-* `real_session_honest`     C22 for the instantiated UI with the emulator AS IT IS: the session ends by `quit`, at
-      the end of the input or in a starving value prompt — or the user steps the emulator into a memory access
-      with `addr + w ≥ 2^64` (`SessionOOD`), where the real program panics (`honest_panics`, NOTES).
+* `real_step_safe`, `realSession_safe`   C22 for the instantiated UI with the emulator AS IT IS: since the repair of
+      F45 an emulator step whose access leaves the address space (`addr + w ≥ 2^64`) is an ordinary error of `Step`,
+      so there is one emulator only (no "scoped" variant, no `SessionOOD` escape clause): the session ends by `quit`,
+      at the end of the input or in a starving value prompt — never by a panic.
 -/
 namespace Mltwist.Lemmas.Compose
 open Mltwist Mltwist.UI Mltwist.Lemmas.UI Mltwist.Lemmas.Deps Mltwist.Lemmas.Emulator
@@ -26,9 +24,9 @@ open Mltwist.Listing.Spec (Lawful WF)
 /-! ### the instantiated UI -/
 
 /-- the parameters of `processCommand` at the real code `d` -/
-noncomputable def paramsAt (honest : Bool) (info : Info) (bs : List BytesMem.Block) (rx : Str → Option (String → Bool))
+def paramsAt (info : Info) (bs : List BytesMem.Block) (rx : Str → Option (String → Bool))
     (d : Deps.Code) : Params ESt :=
-  ⟨opsAt info d, emuOps honest bs (codeViewOf d), rx⟩
+  ⟨opsAt info d, emuOps bs (codeViewOf d), rx⟩
 
 /-- the real code after the action `act` on `args` in the mode `top`: only `move` of the disassembler mode
 touches it -/
@@ -54,23 +52,23 @@ structure RUI where
   ui : UI ESt
 
 /-- the loop of `UI.Run` over the real models -/
-noncomputable def realRunWith (honest : Bool) (info : Info) (bs : List BytesMem.Block)
+def realRunWith (info : Info) (bs : List BytesMem.Block)
     (rx : Str → Option (String → Bool)) : Nat → RUI → Input → Final
   | 0, _, _ => .outOfFuel
   | fuel + 1, r, inp =>
-    match uiStep (paramsAt honest info bs rx r.deps) r.ui inp with
-    | .cont _ ui' rest => realRunWith honest info bs rx fuel ⟨uiNextDeps r.deps r.ui inp, ui'⟩ rest
+    match uiStep (paramsAt info bs rx r.deps) r.ui inp with
+    | .cont _ ui' rest => realRunWith info bs rx fuel ⟨uiNextDeps r.deps r.ui inp, ui'⟩ rest
     | .exited _ => .exited
     | .eof a => .eof a
     | .hang => .hang
     | .panic => .panic
 
 /-- a whole session on the code `d0`: `consoleui.New(disassemble.New(code, emulF))`, then `Run` -/
-noncomputable def realSession (honest : Bool) (info : Info) (bs : List BytesMem.Block)
+def realSession (info : Info) (bs : List BytesMem.Block)
     (rx : Str → Option (String → Bool)) (d0 : Deps.Code) (inp : Input) : Final :=
   match UI.init (listingOf info d0) with
   | none => .panic
-  | some ui => realRunWith honest info bs rx (inp.length + 1) ⟨d0, ui⟩ inp
+  | some ui => realRunWith info bs rx (inp.length + 1) ⟨d0, ui⟩ inp
 
 /-! ### the invariant of the composed state -/
 
@@ -94,6 +92,26 @@ theorem codeWF_sameCode {c0 c : Deps.Code} (hs : SameCode c0 c) (h : CodeWF (cod
   intro ef hef
   exact h (emuOf i0) h0 ef (by simpa only [emuOf, heff] using hef)
 
+/-- … and so are the widths of its stores -/
+theorem codeSW_sameCode {c0 c : Deps.Code} (hs : SameCode c0 c) (h : CodeSW (codeViewOf c0)) :
+    CodeSW (codeViewOf c) := by
+  intro ins hins
+  obtain ⟨i, hi, rfl⟩ := List.mem_map.1 hins
+  obtain ⟨b, hb, hib⟩ := List.mem_flatMap.1 hi
+  obtain ⟨p, hp, rfl⟩ := List.mem_iff_getElem.1 hb
+  have hp0 : p < c0.store.length := by rw [← hs.len]; exact hp
+  have hperm := (hs.blocks p hp0 hp).static
+  have hmem : Deps.Ins.static i ∈ (c0.store[p]).seq.map Deps.Ins.static :=
+    hperm.mem_iff.1 (List.mem_map_of_mem hib)
+  obtain ⟨i0, hi0, he⟩ := List.mem_map.1 hmem
+  have heff : i0.effects = i.effects := by
+    have := congrArg (fun (x : Nat × Nat × Nat × Nat × List Effect × List Expr) => x.2.2.2.2.1) he
+    exact this
+  have h0 : emuOf i0 ∈ codeViewOf c0 :=
+    List.mem_map_of_mem (List.mem_flatMap.2 ⟨c0.store[p], List.getElem_mem hp0, hi0⟩)
+  intro v k a w hm
+  exact h (emuOf i0) h0 v k a w (by simpa only [emuOf, heff] using hm)
+
 structure SInv (d0 : Deps.Code) (r : RUI) : Prop where
   deps : CInv r.deps
   same : SameCode d0 r.deps
@@ -109,27 +127,28 @@ theorem uiNextDeps_inv {d : Deps.Code} (hd : CInv d) (ui : UI ESt) (inp : Input)
 
 /-- the hypotheses about the program that make the emulator parameter lawful: the byte memory comes from
 `memory.NewBytes` of an image that does not reach the top of the address space (C20 `Tidy`), and the code view of
-the start code is well formed (C03 `code_of_image_wellformed`) -/
+the start code is well formed (C03 `code_of_image_wellformed`: the widths of its expressions and of its stores) -/
 structure EnvOK (bs : List BytesMem.Block) (d0 : Deps.Code) : Prop where
   bytes : ∃ image, BytesMem.newBytes image = .ok bs
   bounded : ∀ x, BytesSpec.ofBlocks bs x ≠ none → x + 1 < 2 ^ 64
   wf : CodeWF (codeViewOf d0)
+  sw : CodeSW (codeViewOf d0)
 
 theorem paramsAt_lawful (info : Info) {bs : List BytesMem.Block} (rx : Str → Option (String → Bool))
     {d0 d : Deps.Code} (henv : EnvOK bs d0) (hd : CInv d) (hs : SameCode d0 d) :
-    Lawful (paramsAt false info bs rx d).cops ∧ EmuLawful (paramsAt false info bs rx d).eops EGood := by
+    Lawful (paramsAt info bs rx d).cops ∧ EmuLawful (paramsAt info bs rx d).eops EGood := by
   obtain ⟨image, hnb⟩ := henv.bytes
-  exact ⟨opsAt_lawful info hd, emu_lawful hnb henv.bounded _ (codeWF_sameCode hs henv.wf)⟩
+  exact ⟨opsAt_lawful info hd, emu_lawful hnb henv.bounded _ (codeWF_sameCode hs henv.wf) (codeSW_sameCode hs henv.sw)⟩
 
-/-- one call of `processCommand` on the instantiated UI (scoped emulator): it never panics, the invariants hold
+/-- one call of `processCommand` on the instantiated UI (the real emulator): it never panics, the invariants hold
 again, the real code keeps its instructions and edges -/
 theorem real_step_safe (info : Info) {bs : List BytesMem.Block} (rx : Str → Option (String → Bool))
     {d0 : Deps.Code} (henv : EnvOK bs d0) (r : RUI) (hr : SInv d0 r) (inp : Input) :
-    StepOK EGood inp (uiStep (paramsAt false info bs rx r.deps) r.ui inp) ∧
-    ∀ a ui' rest, uiStep (paramsAt false info bs rx r.deps) r.ui inp = .cont a ui' rest →
+    StepOK EGood inp (uiStep (paramsAt info bs rx r.deps) r.ui inp) ∧
+    ∀ a ui' rest, uiStep (paramsAt info bs rx r.deps) r.ui inp = .cont a ui' rest →
       SInv d0 ⟨uiNextDeps r.deps r.ui inp, ui'⟩ := by
   obtain ⟨hl, he⟩ := paramsAt_lawful info rx henv hr.deps hr.same
-  have hs := uiStep_safe (paramsAt false info bs rx r.deps) hl he r.ui hr.ui inp
+  have hs := uiStep_safe (paramsAt info bs rx r.deps) hl he r.ui hr.ui inp
   refine ⟨hs, fun a ui' rest hc => ?_⟩
   rw [hc] at hs
   obtain ⟨h1, h2⟩ := uiNextDeps_inv hr.deps r.ui inp
@@ -137,12 +156,12 @@ theorem real_step_safe (info : Info) {bs : List BytesMem.Block} (rx : Str → Op
 
 theorem realRunWith_safe (info : Info) {bs : List BytesMem.Block} (rx : Str → Option (String → Bool))
     {d0 : Deps.Code} (henv : EnvOK bs d0) : ∀ (fuel : Nat) (r : RUI) (inp : Input), SInv d0 r → inp.length < fuel →
-      realRunWith false info bs rx fuel r inp ≠ .panic ∧ realRunWith false info bs rx fuel r inp ≠ .outOfFuel
+      realRunWith info bs rx fuel r inp ≠ .panic ∧ realRunWith info bs rx fuel r inp ≠ .outOfFuel
   | 0, _, _, _, hf => by omega
   | fuel + 1, r, inp, hr, hf => by
     obtain ⟨hs, hnext⟩ := real_step_safe info rx henv r hr inp
     simp only [realRunWith]
-    cases hc : uiStep (paramsAt false info bs rx r.deps) r.ui inp with
+    cases hc : uiStep (paramsAt info bs rx r.deps) r.ui inp with
     | cont a ui' rest =>
       simp only
       rw [hc] at hs
@@ -159,213 +178,22 @@ theorem sinv_init (info : Info) (d0 : Deps.Code) (hd : CInv d0) (ui : UI ESt)
   cases h
   exact ⟨hd, SameCode.refl d0, hinv⟩
 
-/-- WHOLE SESSIONS over the instantiated UI (scoped emulator) never panic -/
+/-- WHOLE SESSIONS over the instantiated UI (the real emulator) never panic -/
 theorem realSession_safe (info : Info) {bs : List BytesMem.Block} (rx : Str → Option (String → Bool))
     {d0 : Deps.Code} (henv : EnvOK bs d0) (hd : CInv d0) (inp : Input) :
-    realSession false info bs rx d0 inp = .exited ∨ (∃ a, realSession false info bs rx d0 inp = .eof a) ∨
-      realSession false info bs rx d0 inp = .hang := by
+    realSession info bs rx d0 inp = .exited ∨ (∃ a, realSession info bs rx d0 inp = .eof a) ∨
+      realSession info bs rx d0 inp = .hang := by
   unfold realSession
   obtain ⟨ui0, h0, _⟩ := init_inv EGood (listingOf info d0) (listingOf_wf info hd)
   rw [h0]
   simp only
   have := realRunWith_safe info rx henv (inp.length + 1) ⟨d0, ui0⟩ inp (sinv_init info d0 hd ui0 h0) (by omega)
-  cases hr : realRunWith false info bs rx (inp.length + 1) ⟨d0, ui0⟩ inp with
+  cases hr : realRunWith info bs rx (inp.length + 1) ⟨d0, ui0⟩ inp with
   | exited => exact Or.inl rfl
   | eof a => exact Or.inr (Or.inl ⟨a, rfl⟩)
   | hang => exact Or.inr (Or.inr rfl)
   | panic => simp [hr] at this
   | outOfFuel => simp [hr] at this
-
-/-! ### the emulator as it is -/
-
-/-- for the values typed in (`inp`), the replay of the step of `e` leaves the domain of C14 — at once, or after
-some more prompts were answered -/
-def TreeOOD (e : ESt) : Nat → Answers → Input → Prop
-  | 0, _, _ => False
-  | fuel + 1, ans, inp =>
-    ¬ DomAt e (provOf ans) ∨
-      match Emulator.step (provOf ans) e.code e.st with
-      | .ok _ _ log =>
-        match log.find? fun r => !(ans.any fun p => p.1 == r) with
-        | some r =>
-          match readValueNoErr (reqWidth r % 256) inp with
-          | .value c rest => TreeOOD e fuel (ans ++ [(r, c)]) rest
-          | _ => False
-        | none => False
-      | _ => False
-
-/-- the honest and the scoped step behave alike on the console unless the replay leaves the domain of C14 -/
-theorem runTree_agree (e : ESt) : ∀ (fuel : Nat) (ans : Answers) (inp : Input),
-    runTree (stepTree true e fuel ans) inp = runTree (stepTree false e fuel ans) inp ∨ TreeOOD e fuel ans inp
-  | 0, _, _ => Or.inl rfl
-  | fuel + 1, ans, inp => by
-    by_cases hd : DomAt e (provOf ans)
-    · unfold stepTree TreeOOD
-      rw [if_neg (fun h => Bool.noConfusion h.1), if_neg (fun h => h.2 hd)]
-      cases hs : Emulator.step (provOf ans) e.code e.st with
-      | panic x => exact Or.inl rfl
-      | err => exact Or.inl rfl
-      | ok s' rep log =>
-        simp only
-        cases hf : log.find? fun r => !(ans.any fun p => p.1 == r) with
-        | none => exact Or.inl rfl
-        | some r =>
-          simp only [runTree]
-          cases hv : readValueNoErr (reqWidth r % 256) inp with
-          | hang => exact Or.inl rfl
-          | panic => exact Or.inl rfl
-          | value c rest =>
-            simp only
-            rcases runTree_agree e fuel (ans ++ [(r, c)]) rest with h | h
-            · exact Or.inl h
-            · exact Or.inr (Or.inr h)
-    · exact Or.inr (by unfold TreeOOD; exact Or.inl hd)
-
-/-- the same parameters with another `Emulator.Step` -/
-def withStep {σ : Type} (p : Params σ) (f : σ → StepTree σ) : Params σ :=
-  { p with eops := { p.eops with step := f } }
-
-set_option maxRecDepth 8000 in
-/-- only the action `step` of the emulator mode looks at `Emulator.Step` -/
-theorem runAct_withStep {σ : Type} (p : Params σ) (f : σ → StepTree σ) (top : NamedMode σ)
-    (below : List (NamedMode σ)) (act : Act) (args : List ArgVal) (inp : Input)
-    (h : act = .eStep → ∀ e, top.mode = .emu e → runTree (f e.emu) inp = runTree (p.eops.step e.emu) inp) :
-    runAct (withStep p f) top below act args inp = runAct p top below act args inp := by
-  cases act
-  case eStep =>
-    unfold runAct
-    simp only
-    cases hm : top.mode with
-    | emu e =>
-      simp only [actStep]
-      have := h rfl e hm
-      show (match runTree (f e.emu) inp with
-        | TreeOut.panic => ActOut.panic
-        | TreeOut.hang => ActOut.hang
-        | TreeOut.fail s rest => _
-        | TreeOut.done s rest => _) = _
-      rw [this]
-      rfl
-    | dis st => rfl
-    | mem m v => rfl
-  all_goals rfl
-
-theorem paramsAt_true (info : Info) (bs : List BytesMem.Block) (rx : Str → Option (String → Bool)) (d : Deps.Code) :
-    paramsAt true info bs rx d = withStep (paramsAt false info bs rx d) (fun e => stepTree true e stepFuel []) := rfl
-
-/-- the two parameter sets differ in the field `step` of the emulator only -/
-theorem runAct_agree (info : Info) (bs : List BytesMem.Block) (rx : Str → Option (String → Bool)) (d : Deps.Code)
-    (top : NamedMode ESt) (below : List (NamedMode ESt)) (act : Act) (args : List ArgVal) (inp : Input)
-    (h : act = .eStep → ∀ e, top.mode = .emu e →
-      runTree (stepTree true e.emu stepFuel []) inp = runTree (stepTree false e.emu stepFuel []) inp) :
-    runAct (paramsAt true info bs rx d) top below act args inp =
-      runAct (paramsAt false info bs rx d) top below act args inp := by
-  rw [paramsAt_true]
-  exact runAct_withStep _ _ top below act args inp h
-
-/-- during this call of `processCommand` the emulator is stepped into a memory access outside the domain of C14 -/
-def StepOOD (ui : UI ESt) : Input → Prop
-  | [] => False
-  | line :: rest =>
-    match ui.stack with
-    | [] => False
-    | top :: _ =>
-      match top.mode, parseCommand top.cmdMap line with
-      | .emu e, .ok cmd _ => cmd.act = .eStep ∧ TreeOOD e.emu stepFuel [] rest
-      | _, _ => False
-
-theorem uiStep_agree (info : Info) (bs : List BytesMem.Block) (rx : Str → Option (String → Bool)) (d : Deps.Code)
-    (ui : UI ESt) (inp : Input) :
-    uiStep (paramsAt true info bs rx d) ui inp = uiStep (paramsAt false info bs rx d) ui inp ∨ StepOOD ui inp := by
-  unfold uiStep uiStepWith StepOOD
-  cases inp with
-  | nil => exact Or.inl rfl
-  | cons line rest =>
-    simp only
-    split
-    · exact Or.inl rfl
-    · cases hs : ui.stack with
-      | nil => exact Or.inl rfl
-      | cons top below =>
-        simp only
-        cases hp : parseCommandWith false top.cmdMap line with
-        | panic => exact Or.inl rfl
-        | err => exact Or.inl rfl
-        | ok cmd args =>
-          simp only
-          have hp' : parseCommand top.cmdMap line = .ok cmd args := hp
-          by_cases hact : cmd.act = .eStep
-          · cases hm : top.mode with
-            | emu e =>
-              rcases runTree_agree e.emu stepFuel [] rest with h | h
-              · left
-                rw [runAct_agree info bs rx d top below cmd.act args rest
-                  (fun _ e' he' => by rw [hm] at he'; cases he'; exact h)]
-              · right
-                simp only [hp']
-                exact ⟨hact, h⟩
-            | dis st =>
-              left
-              rw [runAct_agree info bs rx d top below cmd.act args rest
-                (fun _ e' he' => by rw [hm] at he'; cases he')]
-            | mem m v =>
-              left
-              rw [runAct_agree info bs rx d top below cmd.act args rest
-                (fun _ e' he' => by rw [hm] at he'; cases he')]
-          · left
-            rw [runAct_agree info bs rx d top below cmd.act args rest (fun h => absurd h hact)]
-
-/-- somewhere in the session the emulator is stepped into a memory access outside the domain of C14 -/
-inductive SessionOOD (info : Info) (bs : List BytesMem.Block) (rx : Str → Option (String → Bool)) :
-    RUI → Input → Prop where
-  | here {r : RUI} {inp : Input} : StepOOD r.ui inp → SessionOOD info bs rx r inp
-  | later {r : RUI} {inp rest : Input} {a : Answer} {ui' : UI ESt} :
-      uiStep (paramsAt false info bs rx r.deps) r.ui inp = .cont a ui' rest →
-      SessionOOD info bs rx ⟨uiNextDeps r.deps r.ui inp, ui'⟩ rest → SessionOOD info bs rx r inp
-
-theorem realRunWith_agree (info : Info) (bs : List BytesMem.Block) (rx : Str → Option (String → Bool)) :
-    ∀ (fuel : Nat) (r : RUI) (inp : Input),
-      realRunWith true info bs rx fuel r inp = realRunWith false info bs rx fuel r inp ∨ SessionOOD info bs rx r inp
-  | 0, _, _ => Or.inl rfl
-  | fuel + 1, r, inp => by
-    rcases uiStep_agree info bs rx r.deps r.ui inp with h | h
-    · simp only [realRunWith, h]
-      cases hc : uiStep (paramsAt false info bs rx r.deps) r.ui inp with
-      | cont a ui' rest =>
-        simp only
-        rcases realRunWith_agree info bs rx fuel ⟨uiNextDeps r.deps r.ui inp, ui'⟩ rest with h2 | h2
-        · exact Or.inl h2
-        · exact Or.inr (SessionOOD.later hc h2)
-      | exited rest => exact Or.inl rfl
-      | eof a => exact Or.inl rfl
-      | hang => exact Or.inl rfl
-      | panic => exact Or.inl rfl
-    · exact Or.inr (SessionOOD.here h)
-
-/-- WHOLE SESSIONS over the instantiated UI with the emulator AS IT IS: `quit`, the end of the input, a starving
-value prompt — or the user stepped the emulator into a memory access outside the domain of C14 -/
-theorem realSession_honest (info : Info) {bs : List BytesMem.Block} (rx : Str → Option (String → Bool))
-    {d0 : Deps.Code} (henv : EnvOK bs d0) (hd : CInv d0) (inp : Input) :
-    realSession true info bs rx d0 inp = .exited ∨ (∃ a, realSession true info bs rx d0 inp = .eof a) ∨
-      realSession true info bs rx d0 inp = .hang ∨
-      ∃ ui, UI.init (listingOf info d0) = some ui ∧ SessionOOD info bs rx ⟨d0, ui⟩ inp := by
-  have hsafe := realSession_safe info rx henv hd inp
-  unfold realSession at hsafe ⊢
-  cases hi : UI.init (listingOf info d0) with
-  | none =>
-    obtain ⟨ui0, h0, _⟩ := init_inv EGood (listingOf info d0) (listingOf_wf info hd)
-    rw [h0] at hi
-    cases hi
-  | some ui =>
-    rw [hi] at hsafe
-    simp only at hsafe ⊢
-    rcases realRunWith_agree info bs rx (inp.length + 1) ⟨d0, ui⟩ inp with h | h
-    · rw [h]
-      rcases hsafe with h1 | h1 | h1
-      · exact Or.inl h1
-      · exact Or.inr (Or.inl h1)
-      · exact Or.inr (Or.inr (Or.inl h1))
-    · exact Or.inr (Or.inr (Or.inr ⟨ui, rfl, h⟩))
 
 /-! ### the hypotheses about the program are theorems after start-up (C26) -/
 
@@ -388,7 +216,8 @@ theorem envOK_of_started {lim : Nat} {w : Elf.View} {code mem : List Elf.Block}
     {is : List (Parse.Ins (Riscv.Entry × Riscv.Ins))} {c : Deps.Code} {bs : List BytesMem.Block}
     (hs : Started lim w code mem is c bs) : EnvOK bs c ∧ CInv c :=
   ⟨⟨⟨mem, hs.bytes⟩, bytes_bounded hs.mem_tidy hs.bytes,
-      codeWF_of_liftCode (codeViewOf_newCode hs.code_tidy hs.parsed _ c hs.built).2⟩,
+      codeWF_of_liftCode (codeViewOf_newCode hs.code_tidy hs.parsed _ c hs.built).2,
+      codeSW_of_liftCode (codeViewOf_newCode hs.code_tidy hs.parsed _ c hs.built).2⟩,
     inv_of_parse hs.code_tidy hs.parsed _ c hs.built⟩
 
 end Mltwist.Lemmas.Compose
